@@ -22,11 +22,11 @@ LEVEL_TEXT = ("for every generated layout and each of the 16 (unknown, ignored, 
 RULE = ("case = one random layout in a bzr 2a or git working tree (alternating); 16 executions per case (8 dry on the layout, 8 real on copies); "
         "one evaluation = one execution judged; non-trivial = the layout has >= 1 nested branch or outside symlink and the execution had something to delete or protect; "
         "distinct = tree format + flags + sorted classes of deleted and of surviving unversioned paths")
-CASES = {"quick": 24, "thorough": 480}
+CASES = {"quick": 32, "thorough": 480}
 BUDGET_S = {"quick": 45, "thorough": 700}
 MIN_EVALS = {"quick": 160, "thorough": 3000}
 FLOORS = {"judged_real": 80, "judged_dry": 80, "deleted_paths_judged": 300, "layouts_with_nested_branch": 8, "layouts_with_outside_symlink": 8,
-          "runs:bzr": 60, "runs:git": 60}
+          "runs:bzr": 60, "runs:git": 60, "layouts_with_kind_drift": 12, "layouts_with_versioned_dir_relocated_outside:bzr": 8}
 ASSUMPTIONS = [
     "'ignored' is what tree.is_ignored(path) of the tree under test says (pattern semantics are C48's subject); 'unknown' = unversioned and not ignored",
     "'detritus' is read generously: names ending in .THIS .BASE .OTHER ~ .tmp .orig .rej .moved may be deleted under --detritus",
@@ -101,7 +101,7 @@ def _layout(ctx, rng, fmt, root):
     if rng.random() < 0.4:
         shutil.copytree(_template(rng.choice(["2a", "git"])), os.path.join(out, "ob"), symlinks=True)
     wt = gen.make_tree(t, fmt)
-    desc = {"fmt": fmt, "nested": [], "outside_links": [], "notes": []}
+    desc = {"fmt": fmt, "nested": [], "outside_links": [], "notes": [], "drift": []}
     # ---- versioned part (some names look ignored / detritus)
     vfiles = ["v1", "vd/v2.txt"]
     vfiles += rng.sample(["keep~", "v.BASE", "old.orig", "vbuild.o", "vd/in.tmp", "vd/sub/v3", "build/vb", "t.tmp/vt", "ignv/x"], rng.randint(2, 6))
@@ -114,9 +114,16 @@ def _layout(ctx, rng, fmt, root):
     if rng.random() < 0.3:
         os.symlink("../outside/sentinel", os.path.join(t, "vlnk_f"))
         vlinks.append("vlnk_f")
-    hostile_kind_change = fmt != "git" and rng.random() < 0.12
-    if hostile_kind_change:
-        _w(os.path.join(t, "vswap", "inside"), "versioned inside vswap\n")
+    # versioned paths whose on-disk kind may drift after they were versioned (see _drift)
+    force_reloc = fmt != "git" and ctx.index % 4 == 0
+    drift_dirs = [d for d in ("vswap", "vd/vrel") if force_reloc or rng.random() < 0.6]
+    for d in drift_dirs:
+        _w(os.path.join(t, d, "inside"), "versioned inside %s\n" % d)
+        if rng.random() < 0.5:
+            _w(os.path.join(t, d, "sub", "inner.o"), "versioned below %s\n" % d)
+    drift_files = [f for f in ("vkind", "vd/vkind.tmp") if rng.random() < 0.5]
+    for f in drift_files:
+        _w(os.path.join(t, f), "versioned %s\n" % f)
     # ---- ignore rules
     pats = rng.sample(["*.o", "ign*", "build", "vd/*.log", "*.log", "udir/keepme", "!important.o", "tmpdir.tmp"], rng.randint(2, 5))
     _w(os.path.join(t, ignore_file), "\n".join(pats) + "\n")
@@ -137,11 +144,9 @@ def _layout(ctx, rng, fmt, root):
     wt.add(todo)
     if rng.random() < 0.8:
         wt.commit("base", committer="C <c@example.com>", timestamp=1500000000, timezone=0)
-    if hostile_kind_change:
-        # a versioned directory is replaced on disk by a symlink to a directory outside the tree
-        shutil.rmtree(os.path.join(t, "vswap"))
-        os.symlink("../outside/od", os.path.join(t, "vswap"))
-        desc["notes"].append("versioned-dir-became-outside-symlink")
+    with wt.lock_read():
+        desc["versioned"] = [(p, ie.kind) for p, ie in wt.iter_entries_by_dir() if p != ""]
+    _drift(ctx, rng, fmt, t, out, desc, drift_dirs, drift_files, vlinks, force_reloc)
     # ---- unversioned part
     homes = ["", "vd", "vd/sub"] + [d for d in ("build", "t.tmp", "ignv") if os.path.isdir(os.path.join(t, d))]
     unv_names = ["u1", "u2.txt", "new.c", "a.o", "important.o", "ignme", "x.log", "x.THIS", "x.BASE", "x.OTHER", "y~", "z.tmp", "p.orig", "p.rej",
@@ -200,6 +205,72 @@ def _layout(ctx, rng, fmt, root):
     return desc
 
 
+FOREIGN = ["precious.dat", "notes.txt", "build.o", "draft.txt~", "x.log", "ignme", "k.BASE", "z.tmp", "subdir/deep.dat", "subdir/more/deeper.o"]
+
+
+def _drift(ctx, rng, fmt, t, out, desc, drift_dirs, drift_files, vlinks, force_reloc):
+    """Versioned paths change kind on disk AFTER they were versioned (the tree is not told).
+
+    The interesting one: a versioned directory is relocated outside the tree and a symlink is left in its place;
+    the new home also holds files that were never part of this tree.  Others: the link points at another
+    directory of the same tree; file <-> directory <-> symlink swaps; a versioned directory that is gone.
+    """
+    n_reloc = 0
+    targets = list(drift_dirs)
+    rng.shuffle(targets)
+    for i, d in enumerate(targets):
+        p = os.path.join(t, d)
+        if force_reloc and i == 0:
+            op = "dir->outside-symlink"
+        else:
+            op = rng.choice(["dir->outside-symlink", "dir->outside-symlink", "dir->inside-symlink", "dir->file", "dir-missing", "none"])
+        if op == "none":
+            continue
+        if op == "dir->outside-symlink":
+            if rng.random() < 0.5 and os.path.isdir(os.path.join(p, "sub")):
+                d, p = d + "/sub", os.path.join(p, "sub")
+            n_reloc += 1
+            home = os.path.join(out, "reloc%d" % n_reloc)
+            shutil.move(p, home)
+            for n in rng.sample(FOREIGN, rng.randint(2, 6)):
+                _w(os.path.join(home, n), "never part of the tree: %s\n" % n)
+            if os.path.isdir(os.path.join(home, "sub")) and rng.random() < 0.7:
+                # ... also below a subdirectory that is versioned in the tree
+                for n in rng.sample(FOREIGN, rng.randint(1, 3)):
+                    _w(os.path.join(home, "sub", n), "never part of the tree: sub/%s\n" % n)
+            os.symlink(home if rng.random() < 0.25 else os.path.relpath(home, os.path.dirname(p)), p)
+        elif op == "dir->inside-symlink":
+            shutil.rmtree(p)
+            os.symlink(os.path.relpath(os.path.join(t, rng.choice(["vd/sub", "build", "."])), os.path.dirname(p)) if d == "vd/vrel"
+                       else rng.choice(["vd", "vd/sub", "."]), p)
+        elif op == "dir->file":
+            shutil.rmtree(p)
+            _w(p, "a file where a versioned directory was\n")
+        else:
+            shutil.rmtree(p)
+        desc["drift"].append({"path": d, "op": op})
+    for f in drift_files:
+        p = os.path.join(t, f)
+        op = rng.choice(["file->outside-dir-symlink", "file->dir", "file-missing", "none"])
+        if op == "none":
+            continue
+        os.unlink(p)
+        if op == "file->outside-dir-symlink":
+            os.symlink(os.path.relpath(os.path.join(out, "od"), os.path.dirname(p)), p)
+        elif op == "file->dir":
+            for n in rng.sample(["u1", "a.o", "y~", "deep/z.tmp", "ignme"], rng.randint(1, 3)):
+                _w(os.path.join(p, n), "below a directory that is versioned as a file\n")
+        desc["drift"].append({"path": f, "op": op})
+    if "vlnk_d" in vlinks and rng.random() < 0.3:
+        p = os.path.join(t, "vlnk_d")
+        os.unlink(p)
+        for n in rng.sample(["u1", "a.o", "y~", "sentinel2"], rng.randint(1, 3)):
+            _w(os.path.join(p, n), "below a directory that is versioned as a symlink\n")
+        desc["drift"].append({"path": "vlnk_d", "op": "symlink->dir"})
+    if n_reloc:
+        desc["notes"].append("versioned-dir-became-outside-symlink")
+
+
 def _classify_layout(t, fmt, desc):
     """Versioned paths, per-path ignore verdicts of the tree itself."""
     from breezy.workingtree import WorkingTree
@@ -208,7 +279,12 @@ def _classify_layout(t, fmt, desc):
     wt = WorkingTree.open(t)
     nested = [n["path"] for n in desc["nested"]]
     with wt.lock_read():
-        versioned = {p for p, ie in wt.iter_entries_by_dir() if p != ""}
+        versioned = {p for p, kind in desc["versioned"]}   # recorded before the on-disk kinds drifted
+        if fmt == "git":
+            # git versions files; a directory is 'versioned' only as the home of versioned files.  Where such a directory was replaced on disk
+            # by a file or symlink, that file or symlink is an unversioned path (the versioned files below the name are merely missing).
+            versioned -= {p for p, kind in desc["versioned"] if kind == "directory"
+                          and (os.path.islink(os.path.join(t, p)) or not os.path.isdir(os.path.join(t, p))) and os.path.lexists(os.path.join(t, p))}
         for n in desc["nested"]:
             n["where"] = "in-versioned-dir" if os.path.dirname(n["path"]) in versioned | {""} else "inside-unversioned-dir"
         ign = {}
@@ -247,7 +323,51 @@ def _ancestors(p):
     return out
 
 
-def _judge(ctx, fmt, desc, versioned, ign, before, after, flags, dry, exc, prog):
+_seen = []   # deletables observed by the wrapper around the real delete_items during the current execution
+
+
+def worker_init(tier):
+    """Observe (never alter) what clean_tree hands to delete_items: for every deletable, which of its ancestor
+    path components is a symlink at that moment and where the deletable really lives."""
+    import breezy.clean_tree as ct
+
+    real = ct.delete_items
+    if getattr(real, "_c46_wrapped", False):
+        return
+
+    def delete_items(deletables, dry_run=False):
+        deletables = list(deletables)
+        for path, subp in deletables:
+            try:
+                root = path[: len(path) - len(subp)]
+                parts = subp.split("/")
+                link_at = next(("/".join(parts[:i]) for i in range(1, len(parts)) if os.path.islink(root + "/".join(parts[:i]))), None)
+                _seen.append({"subp": subp, "path": path, "link_at": link_at, "parent_is_link": link_at == "/".join(parts[:-1]) if link_at else False,
+                              "real": os.path.join(os.path.realpath(os.path.dirname(path)), os.path.basename(path))})
+            except Exception:
+                pass
+        return real(deletables, dry_run=dry_run)
+
+    delete_items._c46_wrapped = True
+    ct.delete_items = delete_items
+
+
+def _how(abspath, versioned):
+    """Mechanism by which `abspath` was reached, from the observed deletables: '' when no deletable was listed through a symlink."""
+    abspath = os.path.join(os.path.realpath(os.path.dirname(abspath)), os.path.basename(abspath))
+    for d in _seen:
+        if d["link_at"] is None:
+            continue
+        if abspath == d["real"] or abspath.startswith(d["real"] + "/") or abspath == d["path"]:
+            if d["link_at"] not in versioned:
+                return "listed-through-unversioned-symlink"
+            if d["parent_is_link"]:
+                return "via-versioned-dir-that-is-a-symlink-now"
+            return "via-versioned-subdir-of-versioned-dir-that-is-a-symlink-now"
+    return ""
+
+
+def _judge(ctx, fmt, desc, versioned, ign, before, after, flags, dry, exc, prog, run):
     """Classify everything that disappeared / changed between two snapshots of the run root."""
     unknown, ignored, detritus = flags
     ctl = ".git" if fmt == "git" else ".bzr"
@@ -258,6 +378,12 @@ def _judge(ctx, fmt, desc, versioned, ign, before, after, flags, dry, exc, prog)
     classes = set()
 
     def fail(key, msg, path):
+        how = _how(os.path.join(run, "t", path), versioned) if isinstance(path, str) and not key.startswith("outside-tree") else ""
+        if how:
+            # one mechanism, one key: the deletable was listed through a symlinked ancestor and really lives elsewhere in the tree
+            ctx.hist("listed-through-symlink:%s:%s" % (how, key))
+            msg = "[%s] %s" % (key, msg)
+            key = "inside-tree:%s" % how
         ctx.fail(key, "%s: %r [%s tree; unknown=%s ignored=%s detritus=%s dry_run=%s]" % (msg, path, fmt, unknown, ignored, detritus, dry),
                  dict(detail, path=path, removed=gone[:30]))
 
@@ -269,8 +395,7 @@ def _judge(ctx, fmt, desc, versioned, ign, before, after, flags, dry, exc, prog)
         ctx.count("deleted_paths_judged") if not dry else None
         if not (p == "t" or p.startswith("t/")):
             classes.add("OUTSIDE")
-            how = "via-versioned-dir-that-is-a-symlink-now" if "versioned-dir-became-outside-symlink" in desc["notes"] else "via-symlink"
-            fail("outside-tree:%s" % how, "a path outside the tree was removed or changed", p)
+            fail("outside-tree:%s" % (_how(os.path.join(run, p), versioned) or "via-symlink"), "a path outside the tree was removed or changed", p)
             continue
         if p == "t":
             fail("tree-root-removed", "the tree root itself was removed", p)
@@ -288,7 +413,7 @@ def _judge(ctx, fmt, desc, versioned, ign, before, after, flags, dry, exc, prog)
             classes.add("VERSIONED")
             fail("versioned-path-removed", "a versioned path was removed or changed", q)
             continue
-        if any(v.startswith(q + "/") for v in versioned):
+        if before[p][0] == "directory" and any(v.startswith(q + "/") for v in versioned):
             classes.add("VERSIONED")
             fail("directory-containing-versioned-removed", "a directory containing versioned paths was removed", q)
             continue
@@ -370,9 +495,11 @@ def case(ctx):
     except (KeyboardInterrupt, SystemExit):
         raise
     except Exception as e:
+        if os.environ.get("C46_DEBUG"):
+            raise
         ctx.discard("layout construction: %s" % type(e).__name__)
     before = _snap(lay)
-    prog = {"fmt": fmt, "nested": desc["nested"], "outside_links": desc["outside_links"], "notes": desc["notes"],
+    prog = {"fmt": fmt, "nested": desc["nested"], "outside_links": desc["outside_links"], "notes": desc["notes"], "drift": desc["drift"],
             "versioned": sorted(versioned), "unversioned": {k: ("ignored" if v else "unknown" if v is False else "?") for k, v in sorted(ign.items())}}
     ctx.info["layout"] = prog
     if desc["nested"]:
@@ -380,44 +507,69 @@ def case(ctx):
     if desc["outside_links"]:
         ctx.count("layouts_with_outside_symlink")
     ctx.hist("layout:%s" % fmt)
+    for dr in desc["drift"]:
+        ctx.hist("drift:%s:%s" % (dr["op"], fmt))
+        ctx.count("layouts_with_kind_drift") if dr is desc["drift"][0] else None
+    if any(dr["op"] == "dir->outside-symlink" for dr in desc["drift"]):
+        ctx.count("layouts_with_versioned_dir_relocated_outside:%s" % ("git" if fmt == "git" else "bzr"))
+    drift_ops = sorted({dr["op"] for dr in desc["drift"]})
     for n in desc["nested"]:
         ctx.hist("nested:%s:%s" % (n["where"], n["fmt"]))
     combos = [(u, i, d) for u in (False, True) for i in (False, True) for d in (False, True)]
+    orig_outside = {p[8:]: v for p, v in before.items() if p.startswith("outside/")}
     for dry in (True, False):
+        if not dry:
+            if _snap(lay) != before:
+                # the layout itself served the dry runs: it must still be what it was
+                ctx.fail("dry-run:layout-changed-after-all-dry-runs", "layout differs after the dry runs", {"layout": prog})
+                break
+            # real runs work on copies of a master copy; absolute links in every copy point into the layout's own outside/, which is
+            # judged after every run and restored from the master when a run damaged it
+            master = os.path.join(root, "M")
+            shutil.copytree(lay, master, symlinks=True)
         for flags in combos:
             if dry:
                 run = lay
             else:
                 run = os.path.join(root, "R%d%d%d" % flags)
-                shutil.copytree(lay, run, symlinks=True)
+                shutil.copytree(master, run, symlinks=True)
             exc = None
+            del _seen[:]
             try:
                 clean_tree(os.path.join(run, "t"), unknown=flags[0], ignored=flags[1], detritus=flags[2], dry_run=dry, no_prompt=True)
             except (KeyboardInterrupt, SystemExit):
                 raise
             except BaseException as e:
                 exc = type(e).__name__
-                ctx.fail("unexpected:%s" % exc, "clean_tree raised %r [%s tree; flags=%r dry_run=%s]" % (e, fmt, flags, dry), {"layout": prog})
+                how = _how(e.filename, versioned) if isinstance(e, OSError) and isinstance(e.filename, str) else ""
+                ctx.fail("unexpected:%s%s" % (exc, ":" + how if how else ""), "clean_tree raised %r [%s tree; flags=%r dry_run=%s]" % (e, fmt, flags, dry),
+                         {"layout": prog})
             after = _snap(run)
             # absolute links point into the layout's own outside/: judge that too for real runs on copies
             if not dry:
                 orig_now = _snap(os.path.join(lay, "outside"))
                 for p, v in orig_now.items():
-                    if before.get("outside/" + p) != v:
-                        ctx.fail("outside-tree:via-absolute-symlink", "original outside/%s changed" % p, {"layout": prog})
-                for p in before:
-                    if p.startswith("outside/") and p[8:] not in orig_now:
-                        ctx.fail("outside-tree:via-absolute-symlink", "original %s removed" % p, {"layout": prog})
-            classes, left, ngone = _judge(ctx, fmt, desc, versioned, ign, before, after, flags, dry, exc, prog)
+                    if orig_outside.get(p) != v:
+                        ctx.fail("outside-tree:%s" % (_how(os.path.join(lay, "outside", p), versioned) or "via-symlink"),
+                                 "original outside/%s changed [%s tree; flags=%r]" % (p, fmt, flags), {"layout": prog})
+                for p in orig_outside:
+                    if p not in orig_now:
+                        ctx.fail("outside-tree:%s" % (_how(os.path.join(lay, "outside", p), versioned) or "via-symlink"),
+                                 "original outside/%s removed [%s tree; flags=%r]" % (p, fmt, flags), {"layout": prog})
+                if orig_now != orig_outside:
+                    boot.rm(os.path.join(lay, "outside"))
+                    shutil.copytree(os.path.join(master, "outside"), os.path.join(lay, "outside"), symlinks=True)
+            classes, left, ngone = _judge(ctx, fmt, desc, versioned, ign, before, after, flags, dry, exc, prog, run)
+            ctx.count("deletables_observed", len(_seen)) if _seen else None
+            for d in _seen:
+                if d["link_at"] is not None:
+                    ctx.hist("deletable-listed-through-symlink:%s" % fmt)
             ctx.count("runs:%s" % ("git" if fmt == "git" else "bzr"))
             for c in classes:
                 ctx.hist("deleted-class:%s" % c)
-            ctx.note((fmt, flags, dry, sorted(classes), sorted(left), bool(desc["nested"]), bool(desc["outside_links"])),
-                     nontrivial=bool(desc["nested"] or desc["outside_links"]) and (any(flags) or dry),
+            ctx.note((fmt, flags, dry, sorted(classes), sorted(left), bool(desc["nested"]), bool(desc["outside_links"]), drift_ops),
+                     nontrivial=bool(desc["nested"] or desc["outside_links"] or desc["drift"]) and (any(flags) or dry),
                      sample={"fmt": fmt, "flags": flags, "dry_run": dry, "removed": ngone, "classes": sorted(classes), "nested": desc["nested"][:2],
-                             "outside_links": desc["outside_links"][:3]} if (not dry and flags == (True, False, True)) else None)
+                             "outside_links": desc["outside_links"][:3], "drift": desc["drift"]} if (not dry and flags == (True, False, True)) else None)
             if not dry:
                 boot.rm(run)
-    # the layout itself served the dry runs: it must still be what it was
-    if _snap(lay) != before:
-        ctx.fail("dry-run:layout-changed-after-all-dry-runs", "layout differs after the dry runs", {"layout": prog})
